@@ -452,3 +452,38 @@ func VerifBinaryHistory() {
 	}
 	vReach("history")
 }
+
+// VerifBinaryClone: a Clone reads the same values as its original from the same position, in the
+// same byte order, with the same error state, and the two advance independently.
+func VerifBinaryClone() {
+	n := vRange("n", 0, vParam("N", 6))
+	data := vBytes("d", n)
+	r := NewBinaryReaderBytes(append([]byte(nil), data...))
+	if vBool("little") {
+		r.ByteOrder = binary.LittleEndian
+	}
+	skip := vRange("skip", 0, 3)
+	for i := 0; i < skip; i++ {
+		r.ReadUint8()
+	}
+	c := r.Clone()
+	vAssert(c.Pos() == r.Pos() && c.Len() == r.Len() && c.Err() == r.Err(), "clone-state-differs")
+	pos := r.Pos()
+	switch vRange("op", 0, 3) {
+	case 0:
+		vAssert(c.ReadUint16() == r.ReadUint16(), "clone-value-differs")
+	case 1:
+		vAssert(c.ReadUint32() == r.ReadUint32(), "clone-value-differs")
+	case 2:
+		vAssert(c.ReadInt24() == r.ReadInt24(), "clone-value-differs")
+	case 3:
+		vAssert(c.ReadUint64() == r.ReadUint64(), "clone-value-differs")
+	}
+	vAssert(c.Pos() == r.Pos() && c.Err() == r.Err(), "clone-state-differs-after-read")
+	// independence: the clone moves on, the original stays
+	before := r.Pos()
+	c.ReadUint8()
+	vAssert(r.Pos() == before, "clone-moves-original")
+	_ = pos
+	vReach("clone")
+}
